@@ -51,7 +51,7 @@ class C06(CheckBase):
         from simlib import kitchen
         ks = kitchen.kitchen_sink()
         self.valid.append((ks["name"], pm.emit_express(ks)))
-        for sd in pw.schema_defs(seed, tier, 3 if tier == "quick" else 12, label="c06")[1:]:
+        for sd in pw.schema_defs(seed, tier, 3 if tier == "quick" else 12, label="c06", imported=False)[1:]:
             self.valid.append((sd["name"], pm.emit_express(sd)))
         for t in TOOLS:
             toolsim.tool_path("san", t)
